@@ -40,5 +40,9 @@ noncomputable instance : Rounded ℝ where
   add_zero_exact a x _ hx := by
     have hx : a = x := EReal.coe_injective hx
     subst hx; exact ⟨not_false, by simp⟩
+  four_val := ⟨not_false, by simp⟩
+  half_val := ⟨not_false, by
+    show (((OfScientific.ofScientific 5 true 1 : ℝ)) : EReal) = _
+    norm_num⟩
 
 end G3d
